@@ -377,12 +377,16 @@ def validate_traces(ctx, traces, tag, corrupt=False):
 def run(ctx):
   q = ctx.quick
   # ---- design level + export
-  rt = ctx.tlc('CombTrajectory', 'CombTrajectory_quick.cfg' if q else 'CombTrajectory_thorough.cfg')
+  from concurrent.futures import ThreadPoolExecutor
+  with ThreadPoolExecutor(4) as pool:       # the four machines are independent: model check them side by side
+    f_rt = pool.submit(ctx.tlc, 'CombTrajectory', 'CombTrajectory_quick.cfg' if q else 'CombTrajectory_thorough.cfg', workers=4)
+    f_rn = pool.submit(ctx.tlc, 'CombNested', 'CombNested_quick.cfg' if q else 'CombNested_thorough.cfg', workers=4)
+    f_ra = pool.submit(ctx.tlc, 'CombAccum', 'CombAccum_quick.cfg', workers=4)
+    f_rd = pool.submit(ctx.tlc, 'CombDFI', 'CombDFI_quick.cfg', workers=4)
+    rt, rn, ra, rd = f_rt.result(), f_rn.result(), f_ra.result(), f_rd.result()
+  ctx.tlc_runs.sort(key=lambda r: r.module)
   ctx.require_actions(rt, ['OuterDirect', 'OuterRepeated', 'Step', 'Filter', 'EndStep', 'Emit'])
-  rn = ctx.tlc('CombNested', 'CombNested_quick.cfg' if q else 'CombNested_thorough.cfg')
   ctx.require_actions(rn, ['Apply', 'Iterate', 'Return'])
-  ra = ctx.tlc('CombAccum', 'CombAccum_quick.cfg')
-  rd = ctx.tlc('CombDFI', 'CombDFI_quick.cfg')
   ctx.require_actions(rd, ['Weights', 'InitTerm', 'FwdStep', 'BwdStep'])
   # ---- spec -> code
   traj = rt.cases
@@ -394,7 +398,7 @@ def run(ctx):
   for kind, cases in jobs:
     if not cases:
       raise common.MachineryError(f'no cases exported for {kind}')
-    res = common.parallel_map('c14', 'replay_' + kind, cases, tag=kind, nproc=4,
+    res = common.parallel_map('c14', 'replay_' + kind, cases, tag=kind, nproc=8,
                               outdir=os.path.join(ctx.out, 'par'))
     ctx.replayed += len(cases)
     ctx.comparisons += len(cases) * 4
